@@ -141,10 +141,12 @@ func jobsFor(prop, tier string) []Job {
 			mk("txn-1-updateerr", params("NT", 1, "LIB0", 2, "LIB", 3, "K0", 1, "UPDATEERR", 1, "IBMAX", 0, "BLKMAX", 0)),
 			mk("txn-2-nodrain-queue", params("NT", 2, "LIB0", 3, "LIB", 2, "K0", 3, "DRAIN", 0, "IBMIN", 2, "IBMAX", 2, "BLKMAX", 0, "REOPEN", 0)),
 			mk("txn-2-extracommit", params("NT", 2, "LIB0", 3, "LIB", 2, "K0", 0, "EXTRA", 1, "MEMFIX", 4096, "REOPEN", 0)),
+			mk("txn-2-reader-writer-extracommit-gc", params("NT", 2, "LIBFIX", 23, "K0", 0, "EXTRA", 1, "IBMAX", 0, "BLKMAX", 0, "REOPEN", 0)),
 		}
 		if thorough {
 			js = append(js, mk("txn-3-short", params("NT", 3, "LIB0", 0, "LIB", 5, "K0", 1, "BLKMAX", 0, "IBMAX", 0, "REOPEN", 0)),
 				mk("txn-2-updateerr", params("NT", 2, "LIB0", 2, "LIB", 2, "K0", 1, "UPDATEERR", 1, "IBMAX", 0, "BLKMAX", 0)),
+				mk("txn-2-extracommit-gc", params("NT", 2, "LIB0", 2, "LIB", 2, "K0", 0, "EXTRA", 1, "IBMAX", 0, "BLKMAX", 0, "REOPEN", 0)),
 				mk("txn-2-all", params("NT", 2, "LIB", 12, "K0", 3, "IBMAX", 0, "BLKMAX", 0)),
 				mk("txn-2-core-nodrain", params("NT", 2, "LIB0", 0, "LIB", 7, "K0", 0, "DRAIN", 0)))
 		}
